@@ -2,6 +2,7 @@ import LhasaV.Model.Reader
 import LhasaV.Lemmas.WrapProps
 import LhasaV.Lemmas.StreamProps
 import LhasaV.Lemmas.ReaderIndep
+import LhasaV.Lemmas.ReaderWorkTotal
 /-!
 # C13 — every call returns; work and heap are bounded by bytes present and declared size
 
@@ -84,5 +85,47 @@ theorem heap_bounded (st : Stream.St) (pol : DirPolicy) (mk : Nat → Nat) (ops 
     (Legal ops → (run (fresh st pol mk) ops).led.live ≤ 6 * (2 + extractsOk ops) + 4) :=
   ⟨(ReaderIndep.heap_bound_headers st pol mk ops).1, (ReaderIndep.heap_bound_headers st pol mk ops).2,
    fun hl => ReaderIndep.heap_bound st pol mk ops hl⟩
+
+open Reader ReaderIndep in
+/-- **The stream never goes backwards.** Along ANY history (legal or not) the data is the stream's
+and the number of bytes still present never increases — which is what excludes re-reading. -/
+theorem avail_nonincreasing (st : Stream.St) (pol : DirPolicy) (mk : Nat → Nat)
+    (hl : st.leadin.length ≤ 24) (ops more : List Op) :
+    (run (fresh st pol mk) (ops ++ more)).basic.stream.data = (run (fresh st pol mk) ops).basic.stream.data ∧
+    avail (run (fresh st pol mk) (ops ++ more)).basic.stream ≤ avail (run (fresh st pol mk) ops).basic.stream :=
+  ReaderIndep.avail_nonincreasing st pol mk hl ops more
+
+open Reader ReaderIndep in
+/-- **A whole listing is linear.** `n` calls of `lha_reader_next_file` on ANY stream: bytes pulled
++ bytes still present ≤ bytes present at the start (no byte is pulled twice), and source requests
+≤ A₀/32 + (A₀+11)/12 + 2n + 2 in TOTAL (the per-call bound summed would allow n times as much:
+a listing that re-reads the rest of the archive at every header is excluded). -/
+theorem listing_work_linear (st : Stream.St) (pol : DirPolicy) (mk : Nat → Nat)
+    (hl : st.leadin.length ≤ 24) (n : Nat) :
+    st.moved ≤ (run (fresh st pol mk) (List.replicate n .next)).basic.stream.moved ∧
+    ((run (fresh st pol mk) (List.replicate n .next)).basic.stream.moved - st.moved) +
+        avail (run (fresh st pol mk) (List.replicate n .next)).basic.stream ≤ avail st ∧
+    st.reads ≤ (run (fresh st pol mk) (List.replicate n .next)).basic.stream.reads ∧
+    (run (fresh st pol mk) (List.replicate n .next)).basic.stream.reads - st.reads ≤
+        avail st / 32 + (avail st + 11) / 12 + 2 * n + 2 :=
+  ReaderIndep.listing_work_linear st pol mk hl n
+
+open Reader ReaderIndep in
+/-- **Every history: work and heap.** Bytes pulled ≤ bytes present + the declared compressed sizes
+of the members actually DECODED (a member that is only listed or skipped adds nothing); source
+requests ≤ A₀/32 + (A₀+11)/12 + 2·(number of `next`s) + 2; live headers ≤ 2 + successful extracts,
+six blocks each; on legal histories the bytes handed to the caller are at most the declared lengths
+of the members decoded and everything held on the heap is ≤ 6·(2 + extracts) + 4 blocks. -/
+theorem run_bounded (st : Stream.St) (pol : DirPolicy) (mk : Nat → Nat)
+    (hl : st.leadin.length ≤ 24) (ops : List Op) :
+    ((run (fresh st pol mk) ops).basic.stream.moved - st.moved) +
+        avail (run (fresh st pol mk) ops).basic.stream ≤ avail st + decodedDeclared st pol mk ops ∧
+    (run (fresh st pol mk) ops).basic.stream.reads - st.reads ≤
+        avail st / 32 + (avail st + 11) / 12 + 2 * nexts ops + 2 ∧
+    (run (fresh st pol mk) ops).led.hdrs.length ≤ 2 + extractsOk ops ∧
+    hdrBlocks (run (fresh st pol mk) ops).led ≤ 6 * (2 + extractsOk ops) ∧
+    (Legal ops → outputBytes st pol mk ops ≤ decodedLength st pol mk ops ∧
+      (run (fresh st pol mk) ops).led.live ≤ 6 * (2 + extractsOk ops) + 4) :=
+  ReaderIndep.run_bounded st pol mk hl ops
 
 end LhasaV.Props.C13
